@@ -50,7 +50,7 @@ ASSUMPTIONS = [
     "StaticPool is driven without disconnect-classified faults and soft invalidation (its docstring: invalidation / reconnect 'only partially supported ... may not yield good results')",
     "SingletonThreadPool: garbage is collected before Pool.dispose() (its dispose() clears _all_conns but not the thread-local record weakref, so a record kept alive by "
     "uncollected garbage of a failed checkout would be re-used untracked - GC-timing dependent, kept out to stay deterministic)",
-    "BaseException from DBAPI close() and raising close / close_detached / checkin listeners are injected only at the discard-on-return site (overflow connection returned to a full queue, detached close); "
+    "BaseException from DBAPI close() and raising close / close_detached / checkin listeners are injected only at the discard-on-return site (overflow connection returned to a full queue, detached close) and as the only fault of that release; "
     "a connection whose close a raising listener vetoed is exempt from the leak / reuse rules; a raising checkin listener is a known finding (record never returned) excluded by construction and pinned",
     "known findings excluded by construction and pinned: (1) a fault in the first-connect initialisation / connect listener drops the new connection without close(), "
     "(2) a reset-on-return failure while closing a detached connection skips its close() "
@@ -483,6 +483,13 @@ class _Run:
         if detached != (kind == "ev_close_detached"):
             return
         self.cls.add("discard-on-return-fault:" + kind)
+        # the discard-site fault is the only fault of this release: a reset failure would close the connection earlier (on the
+        # invalidation path, not at the discard site) and consume the armed close fault there
+        for site in ("rollback", "commit"):
+            for k in (self.db.counts[site], self.db.counts[site] + 1):
+                self.db.plan.pop((site, k), None)
+        if self.events is not None:
+            self.events.plan.pop(("ev_reset", self.events.counts["ev_reset"]), None)
         if kind == "base":
             self.db.plan[("close", self.db.counts["close"])] = "base"
         elif self.events is not None:
